@@ -2,7 +2,7 @@
 //! call every comparison entry point of the real library, record what it returned.
 #![allow(deprecated)]
 use crate::util::*;
-use ssdeep::internal_comparison::{BlockHashPositionArray, BlockHashPositionArrayData, BlockHashPositionArrayImpl};
+use ssdeep::internal_comparison::{block_hash_position_array_element, BlockHashPositionArray, BlockHashPositionArrayData, BlockHashPositionArrayImpl};
 #[cfg(feature = "unchecked")]
 use ssdeep::internal_comparison::BlockHashPositionArrayImplUnchecked;
 use ssdeep::{DualFuzzyHash, FuzzyHash, FuzzyHashCompareTarget, LongDualFuzzyHash, LongFuzzyHash, LongRawFuzzyHash, RawFuzzyHash};
@@ -444,8 +444,25 @@ pub fn ev_win(sh: &mut Shards, x: &H) {
         h.block_hash_1_index_windows().len() as u64,
         h.block_hash_2_index_windows().len() as u64,
     ];
+    // iterator laws: exact size after every step, fused after the end
+    let mut it = h.block_hash_1_index_windows();
+    let mut steps: Vec<u64> = vec![it.len() as u64];
+    let mut hints_ok = it.size_hint() == (it.len(), Some(it.len()));
+    while it.next().is_some() {
+        steps.push(it.len() as u64);
+        hints_ok &= it.size_hint() == (it.len(), Some(it.len()));
+    }
+    let fused = it.next().is_none() && it.next().is_none() && it.len() == 0;
+    let mut it2 = h.block_hash_2_numeric_windows();
+    let mut steps2: Vec<u64> = vec![it2.len() as u64];
+    while it2.next().is_some() {
+        steps2.push(it2.len() as u64);
+        hints_ok &= it2.size_hint() == (it2.len(), Some(it2.len()));
+    }
+    let fused2 = it2.next().is_none() && it2.next().is_none();
     sh.emit(&format!(
-        "{{\"ev\":\"win\",\"panics\":0,\"A\":{},\"w1\":{},\"w2\":{},\"n1\":{},\"n2\":{},\"i1\":{},\"i2\":{},\"lens\":{}}}",
+        "{{\"ev\":\"win\",\"panics\":0,\"iter1\":{},\"iter2\":{},\"fused\":{},\"hints\":{},\"A\":{},\"w1\":{},\"w2\":{},\"n1\":{},\"n2\":{},\"i1\":{},\"i2\":{},\"lens\":{}}}",
+        jarr_u64(&steps), jarr_u64(&steps2), fused && fused2, hints_ok,
         jhash(h.log_block_size(), h.block_hash_1(), h.block_hash_2()),
         w(h.block_hash_1_windows()),
         w(h.block_hash_2_windows()),
@@ -456,6 +473,38 @@ pub fn ev_win(sh: &mut Shards, x: &H) {
         jarr_u64(&lens)
     ));
 }
+
+/// the string entry point on arbitrary texts (valid, with a ",name" suffix, mutated): score or error side
+#[cfg(feature = "easy-functions")]
+pub fn ev_cmpstr(sh: &mut Shards, ta: &[u8], tb: &[u8]) {
+    use ssdeep::{ParseErrorInfo, ParseErrorSide};
+    let (sa, sb) = match (std::str::from_utf8(ta), std::str::from_utf8(tb)) {
+        (Ok(a), Ok(b)) => (a, b),
+        _ => return,
+    };
+    let r = match catch_unwind(|| ssdeep::compare(sa, sb)) {
+        Ok(Ok(v)) => format!("{{\"ok\":\"ok\",\"score\":{},\"side\":\"\",\"origin\":\"\"}}", v),
+        Ok(Err(e)) => format!(
+            "{{\"ok\":\"err\",\"score\":-1,\"side\":\"{}\",\"origin\":\"{}\"}}",
+            match e.side() {
+                ParseErrorSide::Left => "Left",
+                ParseErrorSide::Right => "Right",
+            },
+            match e.origin() {
+                ssdeep::ParseErrorOrigin::BlockSize => "BlockSize",
+                ssdeep::ParseErrorOrigin::BlockHash1 => "BlockHash1",
+                ssdeep::ParseErrorOrigin::BlockHash2 => "BlockHash2",
+            }
+        ),
+        Err(_) => {
+            note_panic();
+            "{\"ok\":\"panic\",\"score\":-2,\"side\":\"\",\"origin\":\"\"}".to_string()
+        }
+    };
+    sh.emit(&format!("{{\"ev\":\"cmpstr\",\"ta\":{},\"tb\":{},\"r\":{},\"panics\":{}}}", jarr_u8(ta), jarr_u8(tb), r, take_panics()));
+}
+#[cfg(not(feature = "easy-functions"))]
+pub fn ev_cmpstr(_sh: &mut Shards, _ta: &[u8], _tb: &[u8]) {}
 
 // ------------------------------------------------------------------ pair generators
 pub fn rand_hash(rng: &mut Rng, k: u8, long: bool, norm: bool) -> H {
@@ -508,6 +557,18 @@ pub fn drive_cmp(a: &Args, n_pairs: usize) {
         ev_cmp(&mut sh, &mut reuse, &x, &y);
         if i % 4 == 0 {
             ev_win(&mut sh, &x);
+        }
+        if i % 3 == 0 {
+            // the same pair as TEXTS: as is, with a trailing ",name", and mutated
+            let mut ta = x.long_raw().to_string().into_bytes();
+            let mut tb = y.long_raw().to_string().into_bytes();
+            match rng.below(4) {
+                0 => ta.extend_from_slice(b",\"a file\""),
+                1 => tb = crate::obj::mutated_text(&mut rng),
+                2 => ta = crate::obj::mutated_text(&mut rng),
+                _ => {}
+            }
+            ev_cmpstr(&mut sh, &ta, &tb);
         }
         if FuzzyHashCompareTarget::from(&x.long_raw().normalize()).is_comparison_candidate(&y.long_raw().normalize()) {
             nontrivial += 1;
@@ -872,6 +933,32 @@ pub fn drive_reuse(a: &Args, histories: usize, loop_len: usize) {
         if prev.len() > 8 {
             prev.remove(0);
         }
+        steps += 1;
+    }
+    // position array elements: has_sequences(x, len) for every len 0..=66
+    let mut xs: Vec<u64> = vec![0, u64::MAX, 1, 1 << 63, 0x5555_5555_5555_5555, 0xAAAA_AAAA_AAAA_AAAA, 0x7FFF_FFFF_FFFF_FFFF, 0xFFFF_FFFF_FFFF_FFFE];
+    for r in 1..=64u32 {
+        for o in [0u32, 1, 7, 31, 32, 33, 63] {
+            if r + o <= 64 {
+                let m = if r == 64 { u64::MAX } else { ((1u64 << r) - 1) << o };
+                xs.push(m);
+                xs.push(m | 1 | (1 << 63));
+                if o >= 2 {
+                    xs.push(m | ((1u64 << (o - 1)) - 1)); // a second, shorter run right below a gap
+                }
+            }
+        }
+    }
+    for _ in 0..200 {
+        xs.push(rng.next() | rng.next());
+        xs.push(rng.next() & rng.next());
+    }
+    for (i, x) in xs.iter().enumerate() {
+        if i % 40 == 0 {
+            sh.next_unit();
+        }
+        let rs: Vec<String> = (0..=66u32).map(|l| block_hash_position_array_element::has_sequences(*x, l).to_string()).collect();
+        sh.emit(&format!("{{\"ev\":\"hasseq\",\"panics\":0,\"x\":{},\"rs\":[{}],\"c4\":{}}}", jw64(*x), rs.join(","), block_hash_position_array_element::has_sequences_const::<4>(*x)));
         steps += 1;
     }
     println!("STATS {{\"reuse\":{{\"steps\":{}}}}}", steps);
